@@ -169,9 +169,9 @@ impl RowSerde {
                 } else if *f < 0.0 {
                     buf.push(discriminant::NEG_FLOAT);
                     buf.extend_from_slice(&f.to_bits().to_be_bytes());
-                } else if *f == 0.0 {
-                    buf.push(discriminant::ZERO);
                 } else {
+                    // includes +0.0 and -0.0: the ZERO tag decodes as Int(0) and would change
+                    // the value's type
                     buf.push(discriminant::POS_FLOAT);
                     buf.extend_from_slice(&f.to_bits().to_be_bytes());
                 }
@@ -531,7 +531,7 @@ impl RowSerde {
                 }
             }
             Value::Float(f) => {
-                if f.is_nan() || *f == f64::NEG_INFINITY || *f == f64::INFINITY || *f == 0.0 {
+                if f.is_nan() || *f == f64::NEG_INFINITY || *f == f64::INFINITY {
                     1
                 } else {
                     1 + 8
